@@ -25,7 +25,7 @@ fn env1() -> LayerEnv { let mut e = LayerEnv::new(); e.insert(Scope::All, MB::Ov
 pub fn faults(_thorough: bool) -> Report {
     let mut r = Report::new(
         "each public operation run on a prepared real directory in which ONE file it must read or write fails: write target -> /dev/full (ENOSPC), read source -> /proc/self/mem (EIO), a regular file in place of a directory (ENOTDIR/EEXIST): write_toml_file, read_toml_file, uncached_layer / cached_layer (metadata file read and write), LayerRef::write_metadata / write_env / write_sboms / write_exec_d_programs / read_env, LayerEnv::write_to_layer_dir / read_from_layer_dir, read_platform_env, and the real runtime as detect/build (plan, launch.toml, store.toml read and write, SBOM files, buildpack plan, platform env): the call must return Err / the process must exit with a status that is neither 0 nor 100; non-trivial = all of them (a control run without the fault must succeed)",
-        "25 fault positions x {control, faulted}",
+        "26 fault positions x {control, faulted}",
     );
     let mut case = |name: &str, control_ok: bool, faulted_err: bool, detail: String, r: &mut Report| {
         r.evaluations += 1; r.nontrivial += 1;
@@ -74,6 +74,9 @@ pub fn faults(_thorough: bool) -> Report {
         let (c, res) = with_layer(&|l| fs::create_dir(l.join(format!("x.sbom.{f}.json"))).unwrap(), &|lr| lr.write_sboms(&[Sbom::from_bytes(fmt.clone(), b"{}".to_vec())]).map_err(|e| e.to_string()));
         case(&format!("LayerRef::write_sboms: x.sbom.{f}.json is a directory (unlink fails)"), c, res.is_err(), format!("{res:?}"), &mut r);
     }
+    // a stale SBOM of ANOTHER format that cannot be unlinked (it is a directory) while one format is written
+    { let (c, res) = with_layer(&|l| fs::create_dir(l.join("x.sbom.spdx.json")).unwrap(), &|lr| lr.write_sboms(&[Sbom::from_bytes(SbomFormat::CycloneDxJson, b"{}".to_vec())]).map_err(|e| e.to_string()));
+      case("LayerRef::write_sboms(cdx): stale x.sbom.spdx.json is a directory (unlink fails)", c, res.is_err(), format!("{res:?}"), &mut r); }
     { let src = fresh("progs"); fs::write(src.join("good"), b"#!/bin/sh\n").unwrap(); symlink(EIO, src.join("bad")).unwrap();
       let (c, f) = with_layer(&|_| {}, &|lr| lr.write_exec_d_programs([("p", src.join("good"))]).map_err(|e| e.to_string()));
       let (_, f2) = with_layer(&|_| {}, &|lr| lr.write_exec_d_programs([("p", src.join("bad"))]).map_err(|e| e.to_string()));
